@@ -21,7 +21,7 @@ VARIABLES g, inp, opt, stack, sstack, vals, nodes, it, endIt, cur, line, col, mo
           tix, pos, bad, fin
 vars == <<g, inp, opt, stack, sstack, vals, nodes, it, endIt, cur, line, col, mode, ph, status, msgs, red, ev, tix, pos, bad, fin>>
 
-D == INSTANCE Driver WITH RCell <- DumpCell, SCell <- SpecCell, LexAt <- LexChars, GR <- GRof
+D == INSTANCE Driver WITH RCell <- DumpCell, SCell <- SpecCell, LexAt <- LexDispatch, GR <- GRof
 
 E == Traces[tix].events
 
